@@ -19,7 +19,7 @@ ASSUMPTIONS = [
     'SBML sub-domain: generated linear PKPD models (dosed, fixed parameters) through the reference integrator vf/simshim.py; '
     'oracle = complex step through the closed-form solution (matrix exponential)']
 REQUIRED = ['indiv', 'hier', 'sbml', 'dosed', 'sbml_fixed', 'posterior', 'nonfinite', 'cov', 'red', 'noncentered', 'kind:pooled',
-            'kind:hetero']
+            'kind:hetero', 'unmeasured_output_first', 'negative_outputs']
 
 
 @st.composite
@@ -62,15 +62,25 @@ def _spec(draw):
         return dict(kind='sbml', ms=ms, admin=admin, reg=reg, outputs=outs, ll=ll, params=params, fixed=fixed,
                     prior=prior, bad=None)
     if kind == 'indiv':
-        ll = llbuild.draw_ll(draw)
+        ll = llbuild.draw_ll(draw, allow_empty=True)
         params = llbuild.draw_ll_params(draw, ll)
+        signed = False
+        if gen.chance(draw, 0.2):
+            sp = llbuild.draw_signed_params(draw, ll, params)
+            if sp is not None:
+                params, signed = sp, True
         prior = llbuild.draw_prior(draw, llbuild.ll_n_parameters(ll), params) if draw(st.booleans()) else None
         bad = None
-        nsig = sum(llbuild.ll_n_sigma(ll))
-        if nsig > 0 and gen.chance(draw, 0.12):
-            bad = draw(st.integers(0, nsig - 1))
+        # (a non-positive scale is placed on a measured output: for an unmeasured one the outcome is not stated)
+        cand, pos = [], 0
+        for o, k in enumerate(llbuild.ll_n_sigma(ll)):
+            if ll['times'][o]:
+                cand += list(range(pos, pos + k))
+            pos += k
+        if cand and not signed and gen.chance(draw, 0.12):
+            bad = draw(st.sampled_from(cand))
             params[ll['n_par'] + bad] = draw(st.sampled_from([0.0, -0.5]))
-        return dict(kind='indiv', ll=ll, params=params, prior=prior, bad=bad)
+        return dict(kind='indiv', ll=ll, params=params, prior=prior, bad=bad, signed=signed)
     h = hbuild.draw_hier(draw, with_prior=True)
     if not draw(st.booleans()):
         h['prior'] = None
@@ -124,6 +134,11 @@ def classify(spec):
             labs.append('multi_output')
         if spec['ll']['tied']:
             labs.append('tied')
+        tl = spec['ll']['times']
+        if any(len(t) == 0 for t in tl) and min(o for o in range(len(tl)) if tl[o]) > 0:
+            labs.append('unmeasured_output_first')
+        if spec.get('signed'):
+            labs.append('negative_outputs')
     return sorted(set(labs))
 
 
